@@ -1,2 +1,3 @@
 """Imports every check module so that they register themselves."""
 from . import world_f  # noqa: F401
+from . import world_m  # noqa: F401
